@@ -141,35 +141,43 @@ def geometry_check(chk, mod):
            "Alltoall transfer size = (packed block size) x (communicator size), same base layout and overridden axes"
            if ok else f"packer block {P} x mpi_size != unpacker transfer {Uu}", file=rel,
            func="LayoutHandler._rearrange_from_buffer", facts={"packer": str(P), "unpacker": str(Uu)})
-    # the packer advances by exactly one block per destination rank
-    from ..core import increment_of
+    # the packer advances by exactly one block per destination rank: `start += size` per iteration, or start = k*size
+    from ..core import increment_of, same_expr
     adv = [increment_of(n) for n in ast.walk(pack) if isinstance(n, (ast.Assign, ast.AugAssign)) and increment_of(n) and increment_of(n)[0] == "start"]
-    okadv = len(adv) == 1 and src(adv[0][1]) == "size"
-    chk.ob("G1-packer-advance", pack, "start += size", okadv,
-           "packer advances by one block per destination rank" if okadv else "packer does not advance by `size`",
-           file=rel, func="LayoutHandler._extract_from_source")
-    # which tables the two loops iterate
-    loops = [n for n in ast.walk(pack) if isinstance(n, ast.For)]
-    it = src(loops[0].iter) if loops else ""
-    want = "zip(layout_dest.mpi_lengths(axis[0]), layout_dest.mpi_starts(axis[0]))"
-    okt = bool(loops) and it.replace(" ", "") == want.replace(" ", "") and \
-        src(loops[0].target).replace(" ", "") in ("(split_length,mpi_start)", "split_length,mpi_start")
-    chk.ob("G1-packer-table", loops[0] if loops else pack, it or "<no loop>", okt,
-           "packer splits the source block by the destination layout's lengths/starts along the swapped process axis"
-           if okt else "packer does not iterate the destination layout's (lengths, starts) of axis[0]", file=rel,
-           func="LayoutHandler._extract_from_source")
-    # unpacker per-rank tables must come from the *source* layout along axis[0]
-    bad = []
-    n_tab = 0
-    for n in ast.walk(unpack):
-        if isinstance(n, ast.Call) and isinstance(n.func, ast.Attribute) and n.func.attr in ("mpi_lengths", "mpi_starts"):
-            n_tab += 1
-            if src(n.func.value) != "layout_source" or src(n.args[0]) != "axis[0]":
-                bad.append(src(n))
-    chk.ob("G1-unpacker-table", unpack, "mpi_lengths/mpi_starts in unpack loop", not bad and n_tab >= 4,
-           "unpacker places each received block by the source layout's lengths/starts along axis[0]"
-           if not bad and n_tab >= 4 else f"unexpected table(s): {bad or 'fewer than 4 table look-ups'}", file=rel,
-           func="LayoutHandler._rearrange_from_buffer")
+    okadv, whyadv = None, "how the packer advances through the send buffer was not recognised"
+    if len(adv) == 1:
+        okadv = src(adv[0][1]) == "size"
+        whyadv = "packer advances by one block per destination rank" if okadv else \
+            f"packer advances by `{src(adv[0][1])}` per destination rank, not by the block size `size`"
+    elif not adv:
+        sets = [n for n in ast.walk(pack) if isinstance(n, ast.Assign) and src(n.targets[0]) == "start" and isinstance(n.value, ast.BinOp)
+                and isinstance(n.value.op, ast.Mult)]
+        lp_idx = set()
+        for lp_ in [n for n in ast.walk(pack) if isinstance(n, ast.For)]:
+            if isinstance(lp_.iter, ast.Call) and src(lp_.iter.func) == "range" and isinstance(lp_.target, ast.Name):
+                lp_idx.add(lp_.target.id)
+            if isinstance(lp_.iter, ast.Call) and src(lp_.iter.func) == "enumerate" and isinstance(lp_.target, ast.Tuple) \
+                    and isinstance(lp_.target.elts[0], ast.Name):
+                lp_idx.add(lp_.target.elts[0].id)
+        if len(sets) == 1 and any(same_expr(sets[0].value, f"{k} * size") for k in lp_idx):
+            okadv, whyadv = True, "block k of the send buffer starts at k x block size"
+    chk.ob("G1-packer-advance", pack, "start += size", okadv, whyadv, file=rel, func="LayoutHandler._extract_from_source")
+
+    # which per-rank tables the packer and the unpacker read
+    def tables(fn_):
+        return [n for n in ast.walk(fn_) if isinstance(n, ast.Call) and isinstance(n.func, ast.Attribute)
+                and n.func.attr in ("mpi_lengths", "mpi_starts")]
+    for fn_, q_, lay_, rule, what in ((pack, "LayoutHandler._extract_from_source", "layout_dest", "G1-packer-table",
+                                       "packer splits the source block by the destination layout's lengths/starts along the swapped process axis"),
+                                      (unpack, "LayoutHandler._rearrange_from_buffer", "layout_source", "G1-unpacker-table",
+                                       "unpacker places each received block by the source layout's lengths/starts along axis[0]")):
+        tb = tables(fn_)
+        wrong = [src(n) for n in tb if src(n.func.value) != lay_ or not n.args or src(n.args[0]) != "axis[0]"]
+        kinds = {n.func.attr for n in tb}
+        okt = False if wrong else (True if kinds == {"mpi_lengths", "mpi_starts"} else None)
+        chk.ob(rule, tb[0] if tb else fn_, f"mpi_lengths/mpi_starts of {lay_} along axis[0]", okt,
+               what if okt else (f"per-rank tables taken from {wrong}: not the {lay_} tables of the swapped process axis" if wrong else
+                                 "per-rank lengths/starts tables not found"), file=rel, func=q_)
     # buffer size in __init__
     cands = [(v, sl) for v, (sl, ln) in fi.prods.items()]
     envi = inline_locals(init)
@@ -360,6 +368,15 @@ def handler_contract(chk, mod):
         chk.ob("G2-no-shared-mutation", f_, f"{q} vs the cached route map", not muts,
                "the route map and layout tables are only read" if not muts else "; ".join(d for _, d in muts) +
                " - the stored route is shortened/changed by a transpose: the next transpose between the same layouts takes a wrong route",
+               file=U.LAYOUT, func=q)
+    # the Layout objects are shared by every transpose: the packer/unpacker never write through something a Layout hands out
+    for q in (f"{CLS}._extract_from_source", f"{CLS}._rearrange_from_buffer", f"{CLS}._transpose", f"{CLS}._transpose_source_intact",
+              f"{CLS}._get_swap_axes"):
+        f_ = mod.func(q)
+        muts = lints.shared_state_mutations(f_, lambda s_: s_.startswith(("layout_source.", "layout_dest.", "self._layouts", "self._route_map")))
+        chk.ob("G2-no-shared-mutation", muts[0][0] if muts else f_, f"{q} vs the Layout objects", not muts,
+               "nothing obtained from a Layout (shape, tables, cached slices) is modified" if not muts else "; ".join(d for _, d in muts) +
+               " - the Layout object is shared: the next transpose from this layout starts from the modified value",
                file=U.LAYOUT, func=q)
     chk.floor("G1-", 6)
     chk.floor("G3-", 2)
